@@ -118,6 +118,8 @@ def rule_equiv(lines, rng):
             cands.append((i, [f"R_Z(0.25) {ts[0]}"]))
         if name in ("CX", "CNOT", "ZCX") and len(ts) == 2 and "rec" not in l:
             cands.append((i, [f"H {ts[1]}", f"CZ {ts[0]} {ts[1]}", f"H {ts[1]}"]))
+        if name == "SWAP" and len(ts) == 2:
+            cands.append((i, [f"CX {ts[0]} {ts[1]}", f"CX {ts[1]} {ts[0]}", f"CX {ts[0]} {ts[1]}"]))
         if name == "U3" and len(ts) == 1:
             th, ph, la = [x.strip() for x in args.strip("()").split(",")]
             cands.append((i, [f"R_Z({la}) {ts[0]}", f"R_Y({th}) {ts[0]}", f"R_Z({ph}) {ts[0]}"]))
@@ -242,6 +244,25 @@ def run(ctx: Ctx) -> int:
             ctx.violation("rewrite-integer-literal:" + text2.replace("\n", ";")[:60],
                           f"writing an angle as an integer literal (or a Pauli as a rotation by pi) changed the exact output distribution by {dd:.3g}",
                           {"original": text, "rewritten": text2, "det": False, "rule": "integer-angle-literal"})
+    # SWAP onto a qubit no earlier instruction touched, the vacated index used again afterwards (no initial resets): SWAP as three
+    # CX, identities on the fresh qubit before the SWAP, split broadcast
+    for text, text2 in [("H 0\nT 0\nSWAP 0 1\nH 0\nM 0 1", "H 0\nT 0\nCX 0 1\nCX 1 0\nCX 0 1\nH 0\nM 0 1"),
+                        ("H 0\nSWAP 0 1\nX 0\nH 1\nM 0 1", "H 0\nI 1\nSWAP 0 1\nX 0\nH 1\nM 0 1"),
+                        ("H 2\nT 2\nSWAP 2 5\nH 5\nCX 5 2\nM 2 5", "H 2\nT 2\nH 5\nH 5\nSWAP 2 5\nH 5\nCX 5 2\nM 2 5"),
+                        ("H 0\nX_ERROR(0.25) 0\nT 0\nSWAP 0 1 2 3\nH 0 1\nM 0 1 2 3", "H 0\nX_ERROR(0.25) 0\nT 0\nTICK\nSWAP 0 1\nI 2\nSWAP 2 3\nH 0 1\nM 0 1 2 3"),
+                        ("RX 1\nSWAP 1 0\nMX 0\nM 1", "RX 1\nSWAP 0 1\nMX 0\nM 1"), ("H 0\nISWAP 0 1\nH 0\nM 0 1", "H 0\nR 1\nISWAP 0 1\nH 0\nM 0 1")]:
+        try:
+            d1, _ = tsim_dist(tsim.Circuit(text))
+            d2, _ = tsim_dist(tsim.Circuit(text2))
+        except Exception as e:
+            ctx.violation("rewrite-raises-swap:" + text2.replace("\n", ";")[:50], f"tsim raised {e!r} on a rewritten circuit", {"original": text, "rewritten": text2, "det": False})
+            continue
+        dd = dist_diff(d1, d2)
+        ctx.count(("swap-fresh", text, text2), nontrivial=True, bucket="swap-onto-fresh-qubit")
+        if dd > tolerance(False):
+            ctx.violation("rewrite-swap-fresh:" + text2.replace("\n", ";")[:60],
+                          f"an equivalent way of writing a SWAP onto a fresh qubit changed the exact output distribution by {dd:.3g}",
+                          {"original": text, "rewritten": text2, "det": False, "rule": "swap-onto-fresh-qubit"})
     done = 0
     for k in range(n * 3):
         if done >= n or time.time() > deadline:
